@@ -97,10 +97,8 @@ func verifC16RetryOptions(failures int) []verifC16Opt {
 		{kinds: []int{verifC16HandlerError, verifC16Reader, verifC16Chunk, verifC16ErrBuf, verifC16CASSlice}, level: verifC16Lean},
 		{kinds: []int{verifC16HandlerError, verifC16CASSlice}, level: verifC16Lean},
 	}
-	if vnd.Thorough() {
-		opts[1].kinds = opts[0].kinds
-		return opts
-	}
+	// (thorough: objects up to 3 bytes; letting the second replacement be of every kind as well
+	// did not finish within 25 minutes)
 	return opts[:failures]
 }
 
